@@ -426,3 +426,12 @@ pub fn mk_pm_lowspace(d: usize) -> rln::pm_tree_adapter::PmTree {
     let cfg = rln::pm_tree_adapter::PmtreeConfig::from_str(r#"{"mode":"LowSpace","cache_capacity":100000,"flush_every_ms":50}"#).unwrap();
     <rln::pm_tree_adapter::PmTree as ZerokitMerkleTree>::new(d, <PoseidonHash as zerokit_utils::Hasher>::default_leaf(), cfg).unwrap()
 }
+
+/// in-memory backends created with an initial leaf that is NOT the hasher's default leaf (deletions write the default
+/// leaf): only the checks that judge a tree against its OWN observed values (C07) use these
+pub fn mk_full_il(d: usize) -> FullMerkleTree<PoseidonHash> {
+    <FullMerkleTree<PoseidonHash> as ZerokitMerkleTree>::new(d, Fr::from(7u64), Default::default()).unwrap()
+}
+pub fn mk_optimal_il(d: usize) -> OptimalMerkleTree<PoseidonHash> {
+    <OptimalMerkleTree<PoseidonHash> as ZerokitMerkleTree>::new(d, Fr::from(7u64), Default::default()).unwrap()
+}
